@@ -462,6 +462,92 @@ Fixpoint serve_seq_cached (root : vtrie) (fallbacks : list bytes) (cache : list 
       r :: serve_seq_cached root fallbacks cache' t
   end.
 
+
+(* ================= the request-target as net/http hands it to the server ================= *)
+(* serveHTTP routes on r.URL.Path, the DECODED path. net/http builds r.URL with
+   url.ParseRequestURI(target): for an origin-form target ("/..."): no control byte anywhere, the
+   text up to the first "?" is the path, and every "%" must be followed by two hex digits (either
+   letter case), which unescape(encodePath) replaces by the octet — "%2F" becomes "/" and
+   "%C3%A9" two arbitrary bytes; nothing else is rewritten (no "+", no dot-segment cleaning, "#"
+   is an ordinary byte). *)
+Definition PCT : N := 37.
+Definition QMARK : N := 63.
+Definition hexval (c : N) : option N :=
+  if (48 <=? c) && (c <=? 57) then Some (c - 48)
+  else if (97 <=? c) && (c <=? 102) then Some (c - 87)
+  else if (65 <=? c) && (c <=? 70) then Some (c - 55)
+  else None.
+Fixpoint unescape (s : bytes) : option bytes :=
+  match s with
+  | [] => Some []
+  | c :: r =>
+      if c =? PCT then
+        match r with
+        | h :: l :: r' =>
+            match hexval h, hexval l with
+            | Some a, Some b => option_map (cons (16 * a + b)) (unescape r')
+            | _, _ => None
+            end
+        | _ => None
+        end
+      else option_map (cons c) (unescape r)
+  end.
+Definition is_ctl (c : N) : bool := (c <? 32) || (c =? 127).
+Fixpoint upto_q (s : bytes) : bytes :=
+  match s with [] => [] | c :: r => if c =? QMARK then [] else c :: upto_q r end.
+Definition target_ok (raw : bytes) : bool :=
+  match raw with c :: _ => (c =? SLASH) && negb (existsb is_ctl raw) | [] => false end.
+(* url.ParseRequestURI(raw).Path for origin-form targets; None = rejected (400, the server's
+   handler is never entered) or not origin-form *)
+Definition target_path (raw : bytes) : option bytes :=
+  if target_ok raw then unescape (upto_q raw) else None.
+(* what the server answers to a request whose request line carries [raw] *)
+Definition tserve_target (root : vtrie) (xf : list bytes) (hh raw : bytes) (proto : N) : option routed :=
+  option_map (fun up => tserve root xf hh up proto) (target_path raw).
+
+(* the relation "raw spells the path p": every octet of p is written either as itself (any byte
+   but "%") or as "%" and two hex digits of either case *)
+Inductive spells : bytes -> bytes -> Prop :=
+| spells_nil : spells [] []
+| spells_lit c r p : c <> PCT -> spells r p -> spells (c :: r) (c :: p)
+| spells_esc h l a b r p : hexval h = Some a -> hexval l = Some b -> spells r p ->
+                           spells (PCT :: h :: l :: r) ((16 * a + b) :: p).
+
+(* executable, independently written reading of [spells] used by [judge] on Go's own decoding:
+   a lock-step CHECK of (raw, decoded) with the digit value looked up in a table *)
+Fixpoint pos_in (c : N) (l : list N) (k : N) : option N :=
+  match l with [] => None | x :: r => if x =? c then Some k else pos_in c r (k + 1) end.
+Definition spec_hex (c : N) : option N :=
+  pos_in (lower_byte c) [48;49;50;51;52;53;54;55;56;57;97;98;99;100;101;102] 0.
+Fixpoint spells_b (raw p : bytes) : bool :=
+  match raw, p with
+  | [], [] => true
+  | c :: r, x :: p' =>
+      if c =? PCT then
+        match r with
+        | h :: l :: r' =>
+            match spec_hex h, spec_hex l with
+            | Some a, Some b => (16 * a + b =? x) && spells_b r' p'
+            | _, _ => false
+            end
+        | _ => false
+        end
+      else (c =? x) && spells_b r p'
+  | _, _ => false
+  end.
+(* no spelling at all: some "%" is not followed by two hex digits *)
+Fixpoint bad_escape (raw : bytes) : bool :=
+  match raw with
+  | [] => false
+  | c :: r =>
+      if c =? PCT then
+        match r with
+        | h :: l :: r' => match spec_hex h, spec_hex l with Some _, Some _ => bad_escape r' | _, _ => true end
+        | _ => true
+        end
+      else bad_escape r
+  end.
+
 (* one observed request of a multi-listener case *)
 Record mreq := { mq_srv : N; mq_host : bytes; mq_path : bytes; mq_proto : N; mq_simple : bool;
                  mq_trace : list N; mq_status : N; mq_prefix : bytes; mq_opath : bytes }.
@@ -473,7 +559,12 @@ Inductive case :=
          (obs_trace : list N) (obs_status : N) (obs_prefix obs_path : bytes)
 (* listeners created one after the other in one process (site ids unique over the whole
    process), then requests to any of them *)
-| CMulti (groups : list group) (reqs : list mreq).
+| CMulti (groups : list group) (reqs : list mreq)
+(* a raw origin-form request-target: [go_path] is URL.Path as url.ParseRequestURI produced it
+   (None: rejected); the model decodes [raw] itself *)
+| CTarget (sites : list (bytes * N)) (extra_fallbacks : list bytes) (host_header raw : bytes)
+          (go_path : option bytes) (proto : N)
+          (obs_trace : list N) (obs_status : N) (obs_prefix obs_path : bytes).
 
 Definition judge_mreq (groups : list group) (st : pstate) (q : mreq) : bool * bool :=
   let i := N.to_nat (mq_srv q) in
@@ -497,4 +588,16 @@ Definition judge (c : case) : N :=
       let st := process groups in
       let rs := map (judge_mreq groups st) reqs in
       verdict (forallb fst rs) (forallb snd rs)
+  | CTarget sites xf hh raw gp proto otrace ost oprefix opath =>
+      match target_path raw, gp with
+      | Some up, Some g =>
+          (* model: decode, then the trie; spec: Go's decoded path must be spelled by the raw text
+             (lock-step check) and the answer must be the spec's for THAT decoded path *)
+          let '(agree, spec_ok) := judge_route sites xf hh g proto false otrace ost oprefix opath
+                                               (tserve (tbuild sites) xf hh up proto) in
+          verdict (agree && beq up g) (spec_ok && spells_b (upto_q raw) g)
+      | None, None => verdict true (negb (target_ok raw) || bad_escape (upto_q raw))
+      | Some _, None => verdict false (negb (target_ok raw) || bad_escape (upto_q raw))
+      | None, Some g => verdict false (target_ok raw && spells_b (upto_q raw) g)
+      end
   end.
